@@ -89,7 +89,7 @@ def check_doc(case, acc=None):
 def check_scalar(case, acc=None):
     import hszinc
     m, ver = case['value'], case['ver']
-    txt, plan = zinc_ref.write_scalar(m, ver, case.get('choices', ()))
+    txt, plan = zinc_ref.write_scalar(m, ver, case.get('choices', ()), case.get('eol', '\n'))
     mine, _ = zinc_ref.read_scalar(txt, ver)
     if model.diff(model.normalise(m), mine):
         raise AssertionError('harness writer/reader disagree on %r' % txt)
@@ -192,7 +192,7 @@ def run(part, args, env):
                     if shape in ('list', 'dict') and ver != '3.0':
                         continue
                     if shape == 'scalar':
-                        case = {'kind': 'scalar', 'ver': ver, 'value': m, 'choices': [k]}
+                        case = {'kind': 'scalar', 'ver': ver, 'value': m, 'choices': [k], 'eol': '\r\n' if k % 2 else '\n'}
                         fn = check_scalar
                     else:
                         if shape == 'cell':
@@ -259,8 +259,8 @@ def run(part, args, env):
                         acc.violation(v)
     elif part == 'scalars':
         strat = st.sampled_from(['2.0', '3.0']).flatmap(lambda v: st.builds(
-            lambda m, c: {'kind': 'scalar', 'ver': v, 'value': m, 'choices': c},
-            gen._spelled_values(v, 1, frozenset(excl), False), gen.spelling_plans(30)))
+            lambda m, c, eol: {'kind': 'scalar', 'ver': v, 'value': m, 'choices': c, 'eol': eol},
+            gen._spelled_values(v, 1, frozenset(excl), False), gen.spelling_plans(30), st.sampled_from(['\n', '\n', '\r\n'])))
 
         def body(case):
             p = check_scalar(case, acc)
